@@ -24,6 +24,7 @@ RULES = {
     "C09.R2": lambda ctx: bldrules.interning(ctx, "C09.R2"),
     "C09.R3": lambda ctx: bldrules.rewrite_loop(ctx, "C09.R3"),
     "C09.R3b": lambda ctx: bldrules.contents_predicates(ctx, "C09.R3b"),
+    "C09.R4": lambda ctx: bldrules.builder_calls(ctx, "C09.R4"),
     "C09.R5": lambda ctx: bldrules.strip_prefixes(ctx, "C09.R5"),
     "C09.R6": lambda ctx: bldrules.hermes_permutation(ctx, "C09.R6"),
     "C09.R0": lambda ctx: __import__("rules.foundations", fromlist=["x"]).accessors(ctx, "C09.R0", None),
